@@ -649,7 +649,11 @@ func (r *run) exec(c, i int, op *Op) {
 		bar.Abort(op.Flag)
 	case "prio":
 		r.rec(inv)
-		r.p.UpdateBarPriority(bar, int(op.N), op.Flag)
+		if op.Flag || op.N%2 == 0 {
+			r.p.UpdateBarPriority(bar, int(op.N), op.Flag)
+		} else {
+			bar.SetPriority(int(op.N)) // documented as the immediate flavour of the same call
+		}
 	case "get":
 		r.rec(inv)
 		ret["id"] = bar.ID()
@@ -1077,6 +1081,9 @@ func RunScenario(t *testing.T, sc *Scenario) (events []Event, fatal string) {
 			case "manual":
 				r.manual = make(chan interface{})
 				opts = append(opts, mpb.WithManualRefresh(r.manual))
+				if sc.Cfg.AutoToo {
+					opts = append(opts, mpb.WithAutoRefresh())
+				}
 			}
 			if sc.Cfg.Pop {
 				opts = append(opts, mpb.PopCompletedMode())
@@ -1123,7 +1130,8 @@ func RunScenario(t *testing.T, sc *Scenario) (events []Event, fatal string) {
 			if h != "" {
 				gl := libGoroutines()
 				r.rec(Event{"ev": "hang", "kind": h, "pending": r.pendingCalls(), "parked": labels(r.snapshot()), "goroutines": gl,
-					"infmt": strings.Contains(strings.Join(gl, " "), "WC.Format")})
+					"infmt": strings.Contains(strings.Join(gl, " "), "WC.Format"),
+					"wpend": strings.Contains(strings.Join(r.pendingCalls(), " "), ":write:")})
 				r.rec(Event{"ev": "end"})
 				// the bubble cannot be left (a livelocked container keeps its fake clock
 				// running): hand the events to the worker, which writes them and exits
